@@ -130,4 +130,64 @@ def firstDivergence : List Obs → List RObs → Nat → Option (Nat × String)
 def specTrace (p : Policy) (t0 : Int) (ops : List Op) (obs : List Obs) : Bool :=
   (firstDivergence obs (Ref.run p (Ref.new p t0) t0 [] ops) 0).isNone
 
+/-! ## the `wrap` and `proxy` judges (one call through `circuitBreakerWrapper.Wrap` per entry of `calls`) -/
+
+/-- one call through the wrapper on the model at time `now`: `AcquirePermission`, the wrapper's trace, every
+`RecordResult` of the trace applied with the id the acquire handed out (duration 0) -/
+def wrapCall (p : Policy) (cb : CB) (now : Int) (o : Outcome) : CB × List Ev × WrapRet :=
+  let a := acquire p cb now
+  let w := wrap a.2.permitted o
+  (w.1.foldl (fun s e => match e with
+      | Ev.record hasErr => record p s a.2.id hasErr 0 now
+      | _ => s) a.1, w.1, w.2)
+
+/-- the same call on the reference automaton: admitted ⇒ one completion (failure iff the handler did not
+return normally), refused ⇒ nothing -/
+def Ref.wrapCall (p : Policy) (r : Ref) (now : Int) (o : Outcome) : Ref × Bool :=
+  let ra := r.acquire p now
+  (if ra.2 then ra.1.record p ra.1.epoch (classify p (o != .ok) 0) now else ra.1, ra.2)
+
+/-- `wrap` harness input code → what the wrapped handler does -/
+def wrapOutcome (c : Int) : Outcome := if c == 1 then .err else if c == 2 then .panic else .ok
+
+def WrapRet.cls : WrapRet → Int
+  | .nil => 0 | .handlerErr => 1 | .shortCircuited => 2 | .panics => 3
+
+/-- model side of the `wrap` judge: per call (returned class, handler invoked, `State()` afterwards) -/
+def wrapRunModel (p : Policy) : CB → List Int → List (Int × Int × Nat)
+  | _, [] => []
+  | cb, c :: rest =>
+    let x := wrapCall p cb 0 (wrapOutcome c)
+    (x.2.2.cls, (if x.2.1.contains Ev.handler then 1 else 0), x.1.st.toNat) :: wrapRunModel p x.1 rest
+
+/-- spec side of the `wrap` judge: the reference automaton decides admission and state; an admitted call returns
+what its handler did, a refused one `ErrShortCircuited` without the handler -/
+def wrapRunRef (p : Policy) : Ref → List Int → List (Int × Int × Nat)
+  | _, [] => []
+  | r, c :: rest =>
+    let o := wrapOutcome c
+    let x := r.wrapCall p 0 o
+    ((if !x.2 then 2 else (match o with | .ok => 0 | .err => 1 | .panic => 3)), (if x.2 then 1 else 0),
+      x.1.st.toNat) :: wrapRunRef p x.1 rest
+
+/-- model side of the `proxy` judge: per request (filter result, status code, backend calls). Input code 0: the
+backend answers 200, 1: connection error, 2: the backend answers 500 (a failure code: the response is already the
+output response when the error is mapped). -/
+def proxyRun (p : Policy) : CB → List Int → List (String × Nat × Nat)
+  | _, [] => []
+  | cb, c :: rest =>
+    let o : Outcome := if c == 1 || c == 2 then .err else .ok
+    let x := wrapCall p cb 0 o
+    let perr : PoolErr := match x.2.2 with
+      | .nil => .none | .shortCircuited => .shortCircuited
+      | _ => if c == 2 then .poolError 500 "failureCode" else .poolError 503 "serverError"
+    let rc := poolOutcome (c == 2) perr
+    (rc.1, rc.2.getD (if c == 2 then 500 else 200), (if x.2.1.contains Ev.handler then 1 else 0)) ::
+      proxyRun p x.1 rest
+
+/-- the `proxy` judge's property on an observed list: a short-circuited request is answered 503 and no backend
+is contacted -/
+def proxyShortOK (got : List (String × Nat × Nat)) : Bool :=
+  got.all (fun x => x.1 != "shortCircuited" || (x.2.1 == 503 && x.2.2 == 0))
+
 end EgVerif.CircuitBreaker
